@@ -49,11 +49,12 @@ theorem protocol_pattern_unchanged :
 
 /-! ## termination, fixed point, iteration — for ANY target function
 
-`inferOf target` is the recursion of the code (follow `target url` while it is strictly
-shorter than `url`) and `stepOf target` its non-recursive form.  That Lean accepts the
-definition of `inferOf` (`termination_by url.length`, discharged by the guard
-`t.length < url.length` itself) *is* the termination proof: `inferOf target` is a total
-function for every `target`.  Nothing below depends on how targets are extracted. -/
+`inferOf target` is the recursion of the code (clean the url, follow `target (cleaned url)`
+while it is strictly shorter than the cleaned url) and `stepOf target` its non-recursive form.
+That Lean accepts the definition of `inferOf` (`termination_by url.length`, discharged by the
+guard `t.length < (cleanedUrl url).length` itself and `cleanedUrl_length_le`: cleaning only removes
+characters) *is* the termination proof: `inferOf target` is a total function for every
+`target`.  Nothing below depends on how targets are extracted. -/
 
 section Generic
 variable (target : Str → Option Str)
@@ -61,44 +62,48 @@ variable (target : Str → Option Str)
 /-- the defining equation of the recursion (what the Python code does) -/
 theorem inferOf_unfold (u : Str) :
     inferOf target u =
-      match target u with
-      | some t => if t.length < u.length then inferOf target t else u
+      match target (cleanedUrl u) with
+      | some t => if t.length < (cleanedUrl u).length then inferOf target t else u
       | none => u := by
   rw [inferOf]
-  cases target u <;> rfl
+  cases target (cleanedUrl u) <;> rfl
 
 /-- one step either changes nothing — and then the recursion stops there — or yields a
-strictly shorter string on which the recursion continues -/
+string strictly shorter than the cleaned url (hence than the url) on which the recursion
+continues -/
 theorem step_cases (u : Str) :
     (stepOf target u = u ∧ inferOf target u = u) ∨
-    ((stepOf target u).length < u.length ∧ inferOf target u = inferOf target (stepOf target u)) := by
+    ((stepOf target u).length < (cleanedUrl u).length ∧ (stepOf target u).length < u.length ∧
+      inferOf target u = inferOf target (stepOf target u)) := by
   rw [inferOf_unfold]
   unfold stepOf
-  cases target u with
+  cases target (cleanedUrl u) with
   | none => exact Or.inl ⟨rfl, rfl⟩
   | some t =>
-    by_cases h : t.length < u.length
+    by_cases h : t.length < (cleanedUrl u).length
     · right
-      show (if t.length < u.length then t else u).length < u.length ∧
-        (if t.length < u.length then inferOf target t else u) =
-          inferOf target (if t.length < u.length then t else u)
-      rw [if_pos h, if_pos h]; exact ⟨h, rfl⟩
+      show (if t.length < (cleanedUrl u).length then t else u).length < (cleanedUrl u).length ∧
+        (if t.length < (cleanedUrl u).length then t else u).length < u.length ∧
+        (if t.length < (cleanedUrl u).length then inferOf target t else u) =
+          inferOf target (if t.length < (cleanedUrl u).length then t else u)
+      rw [if_pos h, if_pos h]
+      exact ⟨h, Nat.lt_of_lt_of_le h (cleanedUrl_length_le u), rfl⟩
     · left
-      show (if t.length < u.length then t else u) = u ∧
-        (if t.length < u.length then inferOf target t else u) = u
+      show (if t.length < (cleanedUrl u).length then t else u) = u ∧
+        (if t.length < (cleanedUrl u).length then inferOf target t else u) = u
       rw [if_neg h, if_neg h]; exact ⟨rfl, rfl⟩
 
 /-- the recursive result is a fixed point of the step -/
 theorem inferOf_fixed_point (u : Str) : stepOf target (inferOf target u) = inferOf target u := by
   induction u using length_induction with
   | _ u ih =>
-    rcases step_cases target u with ⟨h1, h2⟩ | ⟨h1, h2⟩
+    rcases step_cases target u with ⟨h1, h2⟩ | ⟨_, h1, h2⟩
     · rw [h2]; exact h1
     · rw [h2]; exact ih _ h1
 
 /-- … hence applying the function to its own result changes nothing -/
 theorem inferOf_idempotent (u : Str) : inferOf target (inferOf target u) = inferOf target u := by
-  rcases step_cases target (inferOf target u) with ⟨_, h2⟩ | ⟨h1, _⟩
+  rcases step_cases target (inferOf target u) with ⟨_, h2⟩ | ⟨_, h1, _⟩
   · exact h2
   · rw [inferOf_fixed_point] at h1; exact absurd h1 (Nat.lt_irrefl _)
 
@@ -109,7 +114,7 @@ theorem inferOf_is_iterated_step (u : Str) :
       stepOf target (inferOf target u) = inferOf target u := by
   induction u using length_induction with
   | _ u ih =>
-    rcases step_cases target u with ⟨_, h2⟩ | ⟨h1, h2⟩
+    rcases step_cases target u with ⟨_, h2⟩ | ⟨_, h1, h2⟩
     · exact ⟨0, Nat.zero_le _, by rw [h2]; rfl, inferOf_fixed_point target u⟩
     · obtain ⟨m, hm, him, _⟩ := ih (stepOf target u) h1
       refine ⟨m + 1, by omega, ?_, inferOf_fixed_point target u⟩
@@ -119,7 +124,7 @@ theorem inferOf_is_iterated_step (u : Str) :
 theorem inferOf_length_le (u : Str) : (inferOf target u).length ≤ u.length := by
   induction u using length_induction with
   | _ u ih =>
-    rcases step_cases target u with ⟨_, h2⟩ | ⟨h1, h2⟩
+    rcases step_cases target u with ⟨_, h2⟩ | ⟨_, h1, h2⟩
     · rw [h2]; omega
     · rw [h2]
       have := ih (stepOf target u) h1
@@ -133,19 +138,22 @@ theorem inferFuel_eq (fuel : Nat) (u : Str) (h : u.length ≤ fuel) :
   | zero =>
     rw [inferOf_unfold]
     simp only [inferFuel]
-    cases target u with
+    cases target (cleanedUrl u) with
     | none => rfl
     | some t =>
-      have : ¬ t.length < u.length := by omega
+      have := cleanedUrl_length_le u
+      have : ¬ t.length < (cleanedUrl u).length := by omega
       simp [this]
   | succ fuel ih =>
     rw [inferOf_unfold]
     simp only [inferFuel]
-    cases target u with
+    cases target (cleanedUrl u) with
     | none => rfl
     | some t =>
-      by_cases ht : t.length < u.length
-      · simp only [if_pos ht]; exact ih t (by omega)
+      by_cases ht : t.length < (cleanedUrl u).length
+      · simp only [if_pos ht]
+        have := cleanedUrl_length_le u
+        exact ih t (by omega)
       · simp only [if_neg ht]
 
 end Generic
@@ -179,6 +187,13 @@ theorem infer_is_iterated_step (u : Str) :
 theorem infer_never_longer (u : Str) : (infer u).length ≤ u.length :=
   inferOf_length_le inferTarget u
 
+/-- **the function reads its argument through the cleaned url only** (control characters removed,
+stripped — what every url function of the library does to its input): two strings with the same
+cleaned form are resolved alike, both to the same target or each to itself -/
+theorem infer_reads_cleaned (a b : Str) (h : cleanedUrl a = cleanedUrl b) :
+    infer a = infer b ∨ (infer a = a ∧ infer b = b) :=
+  infer_clean_congr a b h
+
 /-! ## embeddedness -/
 
 /-- what follows a cache-host match is a suffix of the url -/
@@ -192,63 +207,104 @@ theorem redirectSearch_embedded (u k v : Str) (h : redirectSearch u = some (k, v
     ∃ pre post, HintAt u pre k v post :=
   redirectSearch_hint u k v h
 
-/-- `r` is the input itself or a target embedded in `u`:
-* `https://` + a non-empty suffix of `u` (the tail after an AMP / Marfeel cache host), or
-* built from `unquote v` for a hint `key=v` literally present in `u`: that decoded value
-  itself, `https://` + it (youtube), or — when it starts with `/` — its `urljoin` to `u`
-  (to `http://` + `u`, minus that prefix, when `u` has no protocol). -/
-def Embedded (u r : Str) : Prop :=
-  r = u ∨
-  (∃ tail, tail <:+ u ∧ tail ≠ [] ∧ r = httpsPrefix ++ tail) ∨
-  (∃ pre k v post, HintAt u pre k v post ∧
+/-- `r` is a target embedded in the (cleaned) url `c`:
+* `https://` + a non-empty suffix of `c` (the tail after an AMP / Marfeel cache host), or
+* built from `unquote v` for a hint `key=v` literally present in `c`: that decoded value
+  itself, `https://` + it (youtube), or — when it starts with `/` — its `urljoin` to `c`
+  (to `http://` + `c`, minus that prefix, when `c` has no protocol). -/
+def EmbeddedIn (c r : Str) : Prop :=
+  (∃ tail, tail <:+ c ∧ tail ≠ [] ∧ r = httpsPrefix ++ tail) ∨
+  (∃ pre k v post, HintAt c pre k v post ∧
     (r = unquote v ∨ r = httpsPrefix ++ unquote v ∨
-     (startsWith (unquote v) ['/'] = true ∧ joinRelative u (unquote v) = some r)))
+     (startsWith (unquote v) ['/'] = true ∧ joinRelative c (unquote v) = some r)))
+
+/-- `r` is the input itself, or a target embedded in the input as the function reads it: with
+its control characters removed and stripped (`cleanedUrl`, the cleaning every url function of the
+library applies; `cleanedUrl_sublist`, `cleanedUrl_eq_self`: nothing but such characters goes, and a
+string without them is read as it is) -/
+def Embedded (u r : Str) : Prop := r = u ∨ EmbeddedIn (cleanedUrl u) r
+
+/-- what the extraction returns is embedded in the string it is run on -/
+theorem inferTarget_embedded (c t : Str) (ht : inferTarget c = some t) : EmbeddedIn c t := by
+  unfold inferTarget at ht
+  cases hd : domainSplit c with
+  | some tail =>
+    rw [hd] at ht
+    simp only [] at ht
+    split at ht
+    · rename_i hne
+      injection ht with ht
+      exact Or.inl ⟨tail, domainSplit_suffix' c tail hd, hne, ht.symm⟩
+    · exact absurd ht (by simp)
+  | none =>
+    rw [hd] at ht
+    simp only [] at ht
+    cases hs : redirectSearch c with
+    | none => rw [hs] at ht; exact absurd ht (by simp)
+    | some kv =>
+      obtain ⟨k, v⟩ := kv
+      rw [hs] at ht
+      simp only [] at ht
+      obtain ⟨pre, post, hint⟩ := redirectSearch_hint c k v hs
+      refine Or.inr ⟨pre, k, v, post, hint, ?_⟩
+      unfold hintTarget at ht
+      split at ht
+      · exact absurd ht (by simp)
+      · simp only [] at ht
+        split at ht
+        · injection ht with ht; exact Or.inl ht.symm
+        · split at ht
+          · injection ht with ht; exact Or.inl ht.symm
+          · split at ht
+            · rename_i hsl
+              exact Or.inr (Or.inr ⟨hsl, ht⟩)
+            · split at ht
+              · injection ht with ht; exact Or.inr (Or.inl ht.symm)
+              · exact absurd ht (by simp)
 
 /-- **one step returns the input or an embedded target** -/
 theorem infer_target_embedded (u : Str) : Embedded u (inferStep u) := by
   unfold inferStep stepOf
-  cases ht : inferTarget u with
+  cases ht : inferTarget (cleanedUrl u) with
   | none => exact Or.inl rfl
   | some t =>
     simp only []
     split
-    · -- the target is followed: where does it come from?
-      unfold inferTarget at ht
-      cases hd : domainSplit u with
-      | some tail =>
-        rw [hd] at ht
-        simp only [] at ht
-        split at ht
-        · rename_i hne
-          injection ht with ht
-          exact Or.inr (Or.inl ⟨tail, domainSplit_suffix' u tail hd, hne, ht.symm⟩)
-        · exact absurd ht (by simp)
-      | none =>
-        rw [hd] at ht
-        simp only [] at ht
-        cases hs : redirectSearch u with
-        | none => rw [hs] at ht; exact absurd ht (by simp)
-        | some kv =>
-          obtain ⟨k, v⟩ := kv
-          rw [hs] at ht
-          simp only [] at ht
-          obtain ⟨pre, post, hint⟩ := redirectSearch_hint u k v hs
-          refine Or.inr (Or.inr ⟨pre, k, v, post, hint, ?_⟩)
-          unfold hintTarget at ht
-          split at ht
-          · exact absurd ht (by simp)
-          · simp only [] at ht
-            split at ht
-            · injection ht with ht; exact Or.inl ht.symm
-            · split at ht
-              · injection ht with ht; exact Or.inl ht.symm
-              · split at ht
-                · rename_i hsl
-                  exact Or.inr (Or.inr ⟨hsl, ht⟩)
-                · split at ht
-                  · injection ht with ht; exact Or.inr (Or.inl ht.symm)
-                  · exact absurd ht (by simp)
+    · exact Or.inr (inferTarget_embedded _ _ ht)
     · exact Or.inl rfl
+
+/-- the cleaned url is the url minus some of its characters, in order … -/
+theorem cleanedUrl_sublist (u : Str) : (cleanedUrl u).Sublist u := by
+  unfold cleanedUrl strip rstrip lstrip UrlParts.stripControl
+  have h1 : (List.filter (fun c => !UrlParts.isControlChar c) u).Sublist u := List.filter_sublist
+  have h2 := List.dropWhile_sublist isSpace (l := List.filter (fun c => !UrlParts.isControlChar c) u)
+  have h3 := (List.dropWhile_sublist isSpace (l := (List.dropWhile isSpace
+    (List.filter (fun c => !UrlParts.isControlChar c) u)).reverse)).reverse
+  rw [List.reverse_reverse] at h3
+  exact (h3.trans h2).trans h1
+
+/-- … and a url without control characters that neither starts nor ends with whitespace (every
+well-formed url) is read as it is: on such inputs `Embedded` speaks of the input itself -/
+theorem cleanedUrl_eq_self (u : Str) (hc : ∀ c ∈ u, UrlParts.isControlChar c = false)
+    (h1 : ∀ c, u.head? = some c → isSpace c = false)
+    (h2 : ∀ c, u.getLast? = some c → isSpace c = false) : cleanedUrl u = u := by
+  unfold cleanedUrl strip rstrip lstrip UrlParts.stripControl
+  have e1 : List.filter (fun c => !UrlParts.isControlChar c) u = u := by
+    rw [List.filter_eq_self]; intro c hc'; simp [hc c hc']
+  rw [e1]
+  have e2 : List.dropWhile isSpace u = u := by
+    cases u with
+    | nil => rfl
+    | cons c cs => simp [h1 c rfl]
+  rw [e2]
+  have e3 : List.dropWhile isSpace u.reverse = u.reverse := by
+    cases hr : u.reverse with
+    | nil => rfl
+    | cons c cs =>
+      have : u.getLast? = some c := by
+        rw [← List.head?_reverse, hr]; rfl
+      simp [h2 c this]
+  rw [e3, List.reverse_reverse]
 
 /-- **the recursive result is reached through embedded targets only**: it is the end of a
 chain `u = x₀, x₁, …, xₙ = infer u` (`n ≤ len(u)`) in which every element is a target
@@ -271,5 +327,16 @@ example : inferStep "a.com/?url=/z".toList = "a.com/z".toList := by decide +kern
 example : inferStep "https://cdn.ampproject.org/c/s/b.com/x".toList = "https://b.com/x".toList := by
   decide +kernel
 example : inferStep "http://[x?u=/p".toList = "http://[x?u=/p".toList := by decide +kernel
+-- hints are searched in the cleaned url; nothing found: the argument itself comes back
+example : inferStep "\x00 http://a.com/x?redi\x00rect=/z \n".toList = "http://a.com/z".toList ∧
+    inferStep " url=http://b.com/x".toList = "http://b.com/x".toList ∧
+    inferStep "http://x.cdn.ampproject.org/c/ ".toList = "http://x.cdn.ampproject.org/c/ ".toList ∧
+    inferStep "\t\thttp://x&u=%2Fx@a.com/p".toList = "\t\thttp://x&u=%2Fx@a.com/p".toList := by
+  decide +kernel
+example : Embedded "\x00http://a.com/x?redirect=/z".toList "http://a.com/z".toList :=
+  Or.inr (Or.inr ⟨"http://a.com/x?".toList, "redirect".toList, "/z".toList, [],
+    ⟨by decide +kernel, ⟨"redirect", by decide, by decide⟩, by decide, by decide, Or.inl rfl,
+      Or.inr ⟨"http://a.com/x".toList, Or.inl (by decide)⟩⟩,
+    Or.inr (Or.inr (by decide +kernel))⟩)
 
 end Ural.Props.C15
